@@ -155,3 +155,10 @@ def replay(case):
         v2 = query(_C(), gg.to_nx(case["graph2"]), case["graph2"], case["a"], case["b"], case["C"])
         if v1 != v2:
             kernel.violation(PROP, "insertion-order", f"verdict {v1} vs {v2} for two insertion orders of one graph")
+
+
+from .. import mon_dsep
+
+
+def install_for_suite():
+    mon_dsep.install()
